@@ -1,10 +1,10 @@
 (** Extraction of the executable C07 models and of the specification oracle to OCaml (ExtrOcamlBasic only;
     nat/N stay the extracted inductive types).  The path is relative to the directory coqc runs in (coq/). *)
 From Coq Require Import Extraction ExtrOcamlBasic.
-From XV Require Import C07.Spec07 C07.Model07 C07.Spec07a C07.Model07a.
+From XV Require Import C07.Spec07 C07.Model07 C07.Spec07a C07.Model07a C07.Model07s.
 Extraction Language OCaml.
 Extraction "../ocaml/C07/gen_c07.ml"
   dmatch mmatch elem_validb doc_validb dstate knullable
   createChildModel simple_validate mixed_validate buildDFA dfa_validate check_content
   makeContentModel validate_obj elem_check_obj elem_check decl_check verr_code follow_of start_of
-  attrs_validb attr_errors attrs_validb_t attr_errors_t lookup_defs env_of_decls delivered validate_attr_value check_idrefs.
+  attrs_validb attr_errors attrs_validb_t attr_errors_t lookup_defs env_of_decls delivered validate_attr_value check_idrefs scan_element_decl.
